@@ -98,7 +98,7 @@ def one_effect(kind):
 
 PLACEMENTS = ["top", "then", "else", "loop1", "loop2", "loop3", "after_loop_return", "sub", "sub_in_branch",
               "aliased_second_sub", "aliased_nested_sub", "recursive_sub", "recursion_base_helper", "closure", "closure_in_branch",
-              "closure_rebound_in_loop", "after_dynamic_call"]
+              "closure_rebound_in_loop", "before_quiet_closure_call", "before_quiet_sub_call", "after_dynamic_call"]
 
 
 def placement_program(kind, where):
@@ -162,6 +162,15 @@ def placement_program(kind, where):
         call = ("assign", "r", ("callv", ("var", "inner1"), [("var", "m")]))
         body = pre + [("assign", "inner1", ("lam", "inner1"))] + \
             ([call] if where == "closure" else [("if", ("var", "b"), [call], [("assign", "r", Lt(0))])])
+    elif where == "before_quiet_closure_call":
+        # the device-visible statement comes first; a closure that does nothing is called afterwards
+        nested["inner1"] = fn("inner1", [("k", "int")], [("ret", P("add", ("var", "k"), ("var", "n")))])
+        body = pre + [E, ("assign", "inner1", ("lam", "inner1")), ("assign", "r", ("callv", ("var", "inner1"), [("var", "m")])),
+                      ("if", ("var", "b"), [("assign", "r", ("callv", ("var", "inner1"), [("var", "r")]))], []), ("ret", ("var", "r"))]
+    elif where == "before_quiet_sub_call":
+        subs = [fn("sub0", [("a0", "int")], [("ret", P("add", ("var", "a0"), Lt(1)))])]
+        body = pre + [E, ("assign", "r", ("call", "sub0", [("var", "n")])),
+                      ("for", "k1", Lt(0), ("var", "n"), Lt(1), [("assign", "r", ("call", "sub0", [("var", "r")]))]), ("ret", ("var", "r"))]
     elif where == "closure_rebound_in_loop":
         # the variable that is called holds a quiet closure in the first iteration and the acting one from the second on
         nested["step"] = fn("step", [("k", "int")], [("ret", P("add", ("var", "k"), ("var", "n")))])
